@@ -410,7 +410,32 @@ func numberPrograms() []prog {
 	req.Fields = append(req.Fields, pj.FM("inner", 3, "Inner"))
 	resp := mk("Resp", even, true)
 	f := &pj.File{Pkg: "pn", Msgs: []*pj.Msg{inner, req, resp}, Svcs: []*pj.Service{{Name: "S", Methods: []pj.Method{{"M", "Req", "Resp", false, false}}}}}
-	return []prog{{"numbers", single("numbers/pow2", f)}}
+	// sparse numbering x declaration order: every permutation of {2,7,2000,40000} and of {3,5,7,2000,40000} as a
+	// message of its own (a table organised by number must not assume the declaration order)
+	var perms func(a []int, k int, out *[][]int)
+	perms = func(a []int, k int, out *[][]int) {
+		if k == len(a) {
+			*out = append(*out, append([]int{}, a...))
+			return
+		}
+		for i := k; i < len(a); i++ {
+			a[k], a[i] = a[i], a[k]
+			perms(a, k+1, out)
+			a[k], a[i] = a[i], a[k]
+		}
+	}
+	var orders [][]int
+	perms([]int{2, 7, 2000, 40000}, 0, &orders)
+	perms([]int{3, 5, 7, 2000, 40000}, 0, &orders)
+	oreq := &pj.Msg{Name: "OReq"}
+	of := &pj.File{Pkg: "po", Svcs: []*pj.Service{{Name: "S", Methods: []pj.Method{{"M", "OReq", "OReq", false, false}}}}}
+	for i, o := range orders {
+		m := mk(fmt.Sprintf("P%d", i), o, false)
+		of.Msgs = append(of.Msgs, m)
+		oreq.Fields = append(oreq.Fields, pj.FM(fmt.Sprintf("p%d", i), i+1, m.Name))
+	}
+	of.Msgs = append(of.Msgs, oreq)
+	return []prog{{"numbers", single("numbers/pow2", f)}, {"numbers", single("numbers/orders", of)}}
 }
 
 func allPrograms() []prog {
